@@ -4,13 +4,15 @@ import json, os, subprocess, sys
 sys.path.insert(0, os.path.dirname(os.path.abspath(__file__)))
 import vbuild
 rf = json.load(open(sys.argv[1]))
-race = rf.get("case", {}).get("harness") == "race"
+race = rf.get("case", {}).get("property") == "C34"
 b, binp, _ = vbuild.ensure_build(race=race)
 env = dict(os.environ)
 env.update({"VERIF_MODE": "replay", "VERIF_REPLAY": os.path.abspath(sys.argv[1]), "GOMAXPROCS": "1", "GODEBUG": "asyncpreemptoff=1,randautoseed=0,randseednop=0"})
+if race:
+    env["GORACE"] = "exitcode=0 suppress_equal_stacks=0 suppress_equal_addresses=0"
 out = "/var/tmp/verif-replay-%d.json" % os.getpid()
 env["VERIF_OUT"] = out
-subprocess.run([binp, "-test.run", "^TestSim$", "-test.timeout", "0"], env=env, stdout=subprocess.DEVNULL)
+subprocess.run([binp, "-test.run", "^TestSim$", "-test.timeout", "0"], env=env, stdout=subprocess.DEVNULL, stderr=subprocess.DEVNULL)
 r = json.load(open(out)); os.remove(out)
 print(json.dumps({"reproduced": r["reproduced"], "same_trace": r["same_trace"], "expect_sig": r["expect_sig"], "violations": r["result"].get("violations")}, indent=1))
 if r["reproduced"]:
